@@ -64,11 +64,17 @@ pub fn degenerate_inputs(rng: &mut Rng, k: usize, w: usize) -> Vec<Degenerate> {
     longn.extend(std::iter::repeat(b'N').take(150_000));
     longn.extend(clean(rng, w + 3));
     add("long-N-run", vec![rec(0, &clean(rng, w + 1)), rec(1, &longn), rec(2, &vec![b'N'; 80_000])]);
+    // tens of thousands of records none of which yields anything (progress reporting, batching and flushing thresholds
+    // are reached with nothing computed yet): all shorter than k / all ambiguous / a mix with empty records
+    let many = 10_000 + rng.usize(1, 2500);
+    add("many-short-records", (0..many).map(|i| rec(i, &clean(rng, 1 + i % (k.saturating_sub(1)).max(1)))).collect());
+    add("many-all-N-records", (0..many).map(|i| rec(i, &vec![b'N'; 1 + i % 40])).collect());
+    add("many-mixed-degenerate-records", (0..many).map(|i| if i % 3 == 0 { rec(i, b"") } else if i % 3 == 1 { rec(i, b"NNNNNNNNNNNNNNNN") } else { rec(i, b"AC") }).collect());
     v
 }
 
 fn input_json(d: &Degenerate, layout: &str) -> Json {
-    Json::obj().set("input", Json::s(d.name.clone())).set("layout", Json::s(layout)).set("records", recs_json(&d.recs))
+    Json::obj().set("input", Json::s(d.name.clone())).set("layout", Json::s(layout)).set("n_records", Json::u(d.recs.len())).set("records", recs_json(&d.recs[..d.recs.len().min(40)]))
 }
 
 /// serialise: FASTA always legal; FASTQ only when every record has a base; optional gzip
@@ -339,7 +345,9 @@ pub fn lib(ctx: &Ctx) -> Stats {
         let k = rng.usize(1, 6);
         let m = rng.usize(1, 9);
         let w = m + rng.usize(1, 12);
-        for d in degenerate_inputs(&mut rng, k.max(m), w) {
+        // (the ten-thousand-record inputs are for the CLI matrix only: the tiny memory ceilings used here would turn each of
+        // their records into a chunk of its own — hundreds of thousands of spill files, a disk-space test rather than this one)
+        for d in degenerate_inputs(&mut rng, k.max(m), w).into_iter().filter(|d| !d.name.starts_with("many-")) {
             if ctx.expired() {
                 st.truncated = true;
                 return st;
